@@ -1082,6 +1082,40 @@ def b_stacking(S):
     return "\n".join(out)
 
 
+def b_sharp_corners(S):
+    """`SharpCornerValidator.validation_method`: two-vertex traces pass; the chord direction must exist; every segment must keep within the average
+    threshold of the chord direction and (from the second on) within the previous-segment threshold of its predecessor; undefined
+    directions (zero-length segments) fail. Unit vectors and their comparison are parameters."""
+    src = standalone(S[TVALS], "SharpCornerValidator.validation_method", [(r"segment_end: Point = ", "segment_end = ")])
+    C = {
+        "get_trace_coord_points(geom)": "(coords_of geom)",
+        "geom_coords[0]": "(List.headD geom_coords dflt)",
+        "geom_coords[-1]": "(List.getLastD geom_coords dflt)",
+        "geom_coords[idx + 1]": "(List.getD geom_coords (idx + 1) dflt)",
+        "geom_coords[idx - 1]": "(List.getD geom_coords (idx - 1) dflt)",
+        "geom_coords[idx]": "(List.getD geom_coords idx dflt)",
+        "create_unit_vector(geom_coords[0], geom_coords[-1])": "(unit (List.headD geom_coords dflt) (List.getLastD geom_coords dflt))",
+        "create_unit_vector(segment_start, segment_end)": "(unit segment_start segment_end)",
+        "create_unit_vector(geom_coords[idx - 1], geom_coords[idx])": "(unit (List.getD geom_coords (idx - 1) dflt) (List.getD geom_coords idx dflt))",
+        "any(np.isnan(trace_unit_vector))": "(is_nan trace_unit_vector)",
+        "any(np.isnan(segment_unit_vector))": "(is_nan segment_unit_vector)",
+        "any(np.isnan(prev_segment_unit_vector))": "(is_nan prev_segment_unit_vector)",
+        "compare_unit_vector_orientation(trace_unit_vector, segment_unit_vector, sharp_avg_threshold)": "(aligned trace_unit_vector segment_unit_vector sharp_avg_threshold)",
+        "compare_unit_vector_orientation(segment_unit_vector, prev_segment_unit_vector, sharp_prev_seg_threshold)": "(aligned segment_unit_vector prev_segment_unit_vector sharp_prev_seg_threshold)",
+    }
+    T = {"get_trace_coord_points(geom)": "List P", "geom_coords": "List P", "geom_coords[0]": "P", "geom_coords[-1]": "P", "geom_coords[idx + 1]": "P", "geom_coords[idx - 1]": "P",
+         "geom_coords[idx]": "P", "segment_end": "P", "segment_start": "P",
+         "create_unit_vector(geom_coords[0], geom_coords[-1])": "V", "trace_unit_vector": "V", "create_unit_vector(segment_start, segment_end)": "V", "segment_unit_vector": "V",
+         "create_unit_vector(geom_coords[idx - 1], geom_coords[idx])": "V", "prev_segment_unit_vector": "V",
+         "any(np.isnan(trace_unit_vector))": "Bool", "any(np.isnan(segment_unit_vector))": "Bool", "any(np.isnan(prev_segment_unit_vector))": "Bool",
+         "compare_unit_vector_orientation(trace_unit_vector, segment_unit_vector, sharp_avg_threshold)": "Bool",
+         "compare_unit_vector_orientation(segment_unit_vector, prev_segment_unit_vector, sharp_prev_seg_threshold)": "Bool"}
+    return translate_function(
+        src, "validation_method", "sharp_corner_validation", {"geom": "L", "sharp_avg_threshold": "Rat", "sharp_prev_seg_threshold": "Rat"}, "Bool", C, types=T,
+        extra_params=[("{L}", "Type"), ("{P}", "Type"), ("{V}", "Type"), ("coords_of", "L → List P"), ("dflt", "P"), ("unit", "P → P → V"), ("is_nan", "V → Bool"), ("aligned", "V → V → Rat → Bool")],
+        slice_from="geom_coords = get_trace_coord_points", default_num="Nat", join="tuple", nat_sub=True)
+
+
 def b_determine_intersect(S):
     """`determine_intersect`: which ordered pair of sets an X/Y node between two sets is recorded under, or ValueError"""
     fn = find_func(ast.parse(S[REL]), "determine_intersect")
@@ -1744,6 +1778,7 @@ ITEMS: List[Item] = [
     Item("ValidationPass", TVAL, ["C09", "C13"], b_validation_pass),
     Item("UnderlapValidator", TVALS, ["C10", "C13"], b_underlap_validator),
     Item("ValidationUtils", TVU, ["C10", "C16"], b_validation_utils),
+    Item("SharpCorners", TVALS, ["C10"], b_sharp_corners),
     Item("Stacking", TVU, ["C10"], b_stacking, extra_modules=[GENERAL]),
     Item("AreaValidator", TVALS, ["C10"], b_area_validator),
     Item("ValidationDefaults", TVAL, ["C10", "C03", "C16"], b_validation_defaults),
